@@ -78,6 +78,15 @@ Definition adv_v2 (g : v2_fields) : adv :=
     {| v_local := false; v_src := s; v_dst := d |}
   else adv_local.
 
+(* ---------------------------------------------------------------- the grammar in one predicate *)
+(* [wf_header hd a]: hd is, from its first to its last byte, a well-formed header advertising a *)
+Inductive wf_header : str -> adv -> Prop :=
+| WF_v1 f : wf_v1_tcp f -> wf_header (v1_line f ++ CRLF) (adv_v1 f)
+| WF_unknown rest : wf_v1_unknown rest -> wf_header (v1_unknown_line rest ++ CRLF) adv_local
+| WF_v2 g : wf_v2 g -> wf_header (v2_bytes g) (adv_v2 g).
+
+Definition is_bytes (l : str) : bool := forallb (fun x => x <? 256) l.
+
 (* ---------------------------------------------------------------- recogniser *)
 (* index of the CR of the first CR LF pair *)
 Fixpoint find_crlf (s : str) (i : nat) : option nat :=
